@@ -11,7 +11,7 @@ give a dict-like API to a synchronized data structure.
 from collections.abc import Mapping, MutableMapping
 
 from ..utils import AbstractTypeResolver
-from .synced_collection import SyncedCollection, _sc_resolver
+from .synced_collection import SyncedCollection, _detached, _sc_resolver
 
 # Identifies mappings, which are the base type for this class.
 _mapping_resolver = AbstractTypeResolver(
@@ -193,6 +193,7 @@ class SyncedDict(SyncedCollection, MutableMapping):
 
         """
         if _mapping_resolver.get_type(data) == "MAPPING":
+            data = {key: _detached(value) for key, value in data.items()}
             if self._root is not None:
                 # A nested collection is saved as part of its root, so the rest
                 # of the data must be current before it is written back.
@@ -264,6 +265,8 @@ class SyncedDict(SyncedCollection, MutableMapping):
                 other = dict(other)
         else:
             other = {}
+        other = {key: _detached(value) for key, value in other.items()}
+        kwargs = {key: _detached(value) for key, value in kwargs.items()}
 
         with self._load_and_save:
             # The order here is important to ensure that the promised sequence of
